@@ -80,6 +80,11 @@ pub struct RunCfg {
     pub in_err_at: Option<usize>,
     #[serde(default)]
     pub in_rewind: bool,
+    /// C11 speaks about the elements of `reverse(s)`, `s[a:b]`, ... not about whether the result
+    /// is an eager list or a lazy finite stream: with this set, a list and a finite stream with the
+    /// same elements count as the same result (and the model follows the implementation's kind)
+    #[serde(default)]
+    pub seq_kind_tolerant: bool,
 }
 
 impl Default for RunCfg {
@@ -99,8 +104,75 @@ impl Default for RunCfg {
             in_eintr_every: 0,
             in_err_at: None,
             in_rewind: false,
+            seq_kind_tolerant: false,
         }
     }
+}
+
+/// top-level elements of a canonical list text `[a,b,...]` (quote- and bracket-aware)
+fn split_top(list: &str) -> Vec<&str> {
+    let inner = &list[1..list.len() - 1];
+    let mut out = Vec::new();
+    if inner.is_empty() {
+        return out;
+    }
+    let b = inner.as_bytes();
+    let (mut depth, mut in_str, mut esc, mut start) = (0i32, false, false, 0usize);
+    for (i, c) in b.iter().enumerate() {
+        if in_str {
+            if esc {
+                esc = false;
+            } else if *c == b'\\' {
+                esc = true;
+            } else if *c == b'"' {
+                in_str = false;
+            }
+            continue;
+        }
+        match c {
+            b'"' => in_str = true,
+            b'[' | b'{' | b'(' => depth += 1,
+            b']' | b'}' | b')' => depth -= 1,
+            b',' if depth == 0 => {
+                out.push(&inner[start..i]);
+                start = i + 1;
+            }
+            _ => {}
+        }
+    }
+    out.push(&inner[start..]);
+    out
+}
+
+/// the canonical text a finite stream with the elements of this list would have
+fn as_stream_text(list: &str) -> String {
+    let els = split_top(list);
+    let mut s = String::from("S[");
+    for (i, e) in els.iter().take(obs::STREAM_BOUND).enumerate() {
+        if i > 0 {
+            s.push(',');
+        }
+        s.push_str(e);
+    }
+    if els.len() > obs::STREAM_BOUND {
+        s.push_str(",...");
+    }
+    s.push(']');
+    s
+}
+
+/// equal, or a list on one side and a finite stream with the same elements on the other
+pub fn seq_kind_tolerant_eq(a: &str, b: &str) -> bool {
+    if a == b {
+        return true;
+    }
+    if a.starts_with("S[") && b.starts_with('[') && b.ends_with(']') {
+        return a == as_stream_text(b);
+    }
+    if b.starts_with("S[") && a.starts_with('[') && a.ends_with(']') {
+        return b == as_stream_text(a);
+    }
+    false
 }
 
 #[derive(Clone, Debug, Serialize, Deserialize, PartialEq)]
@@ -273,6 +345,7 @@ pub struct Session {
     pub env: Rc<RefCell<Env>>,
     pub writer: SimWriter,
     pub reader: SimReader,
+    pub tolerant: bool,
     pub model: Model,
     pub user_vars: Vec<String>,
 }
@@ -328,6 +401,7 @@ impl Session {
             env: Rc::new(RefCell::new(env)),
             writer,
             reader,
+            tolerant: cfg.seq_kind_tolerant,
             model: {
                 let mut m = Model::new(cfg.allow_redecl);
                 m.input = cfg.input.clone();
@@ -769,7 +843,8 @@ fn execute_inner(
         match (&impl_out, &model_out) {
             (Outcome::Value(a), Outcome::Value(b)) => {
                 stats.values += 1;
-                if a != b {
+                let same = if script.cfg.seq_kind_tolerant { seq_kind_tolerant_eq(a, b) } else { a == b };
+                if !same {
                     log.push(format!("{} => VALUE MISMATCH", src));
                     return RunEnd::Violation(Violation {
                         kind: ViolationKind::ResultValue,
@@ -830,6 +905,21 @@ fn compare_state(sess: &mut Session, idx: usize, src: &str) -> Result<u64, RunEn
         let is = sess.observe_var(name).unwrap_or_else(|| "<undeclared>".to_string());
         fnv(&mut h, name);
         fnv(&mut h, &ms);
+        if ms != is && sess.tolerant && seq_kind_tolerant_eq(&ms, &is) {
+            // same elements, other kind (eager list / lazy finite stream): follow the implementation
+            let nv = match &mv {
+                V::Stream(st) => match sess.model.force_stream(st) {
+                    Ok(xs) => V::List(xs),
+                    Err(_) => return Err(RunEnd::Inconclusive("kind adoption: stream not forceable".into())),
+                },
+                V::List(xs) => V::Stream(crate::val::StreamV::Fin(xs.clone())),
+                _ => return Err(RunEnd::Inconclusive("kind adoption: unexpected value".into())),
+            };
+            if !sess.model.adopt_var(name, nv) {
+                return Err(RunEnd::Inconclusive("kind adoption: unknown variable".into()));
+            }
+            continue;
+        }
         if ms != is {
             return Err(RunEnd::Violation(Violation {
                 kind: ViolationKind::State,
